@@ -35,7 +35,7 @@ func init() {
 		Dirs: []string{"z80"},
 		Jobs: func(tier string, seed int64) []Job { return stepJobs(allEncodings(), "VStep") },
 		Only: func(job Job, a string) bool {
-			return inSet(a, "A", "F", "BC", "DE", "HL", "alt", "IX", "IY", "SP", "PC", "I", "IFF1", "IFF2", "IM", "HALT", "intr", "mem", "portcount", "ports", "nopanic")
+			return inSet(a, "A", "F", "BC", "DE", "HL", "alt", "IX", "IY", "SP", "PC", "I", "IFF1", "IFF2", "IM", "HALT", "intr", "mem", "portcount", "ports", "nopanic", "unsupported")
 		},
 		Post: func(c *CheckCtx) {
 			// translator validation of the encoder itself (not of the property)
@@ -168,7 +168,7 @@ func init() {
 		Dirs: []string{"z80"},
 		Jobs: func(tier string, seed int64) []Job { return stepJobs(allEncodings(), "VStep") },
 		Only: func(job Job, a string) bool {
-			return inSet(a, "tracelen", "trace", "rmw-order", "portcount", "ports")
+			return inSet(a, "tracelen", "trace", "rmw-order", "portcount", "ports", "unsupported")
 		},
 		Bounds: stepBounds("all 7 tables x 256 (1786 leaf encodings); trace length <= 8 (longest observed is reported)"),
 		Assume: stepAssume, Stubs: stepStubs, Exhaust: true,
@@ -179,7 +179,7 @@ func init() {
 		Dirs: []string{"z80"},
 		Jobs: func(tier string, seed int64) []Job { return stepJobs(allEncodings(), "VStep") },
 		Only: func(job Job, a string) bool {
-			if inSet(a, "R", "I") {
+			if inSet(a, "R", "I", "unsupported") {
 				return true
 			}
 			e := Enc{job.Params[0], job.Params[1]}
